@@ -56,15 +56,41 @@ pub struct CallSpec {
 }
 
 pub fn make_config(bits: u8) -> ParserConfig {
+    // All seven setters are always called (with true or false), in an order that is a pure
+    // function of the bits: a configuration must not depend on the order in which it was built.
     let c = Cfg::from_bits(bits);
     let mut p = ParserConfig::default();
-    p.allow_spaces_after_header_name_in_responses(c.a)
-        .allow_obsolete_multiline_headers_in_responses(c.f)
-        .allow_multiple_spaces_in_request_line_delimiters(c.mreq)
-        .allow_multiple_spaces_in_response_status_delimiters(c.mresp)
-        .allow_space_before_first_header_name(c.s)
-        .ignore_invalid_headers_in_responses(c.iresp)
-        .ignore_invalid_headers_in_requests(c.ireq);
+    let mut order = [0usize, 1, 2, 3, 4, 5, 6];
+    let mut z = crate::rng::mix(bits as u64 ^ 0x5eed);
+    for i in (1..7).rev() {
+        z = crate::rng::mix(z);
+        order.swap(i, (z % (i as u64 + 1)) as usize);
+    }
+    for k in order {
+        match k {
+            0 => {
+                p.allow_spaces_after_header_name_in_responses(c.a);
+            }
+            1 => {
+                p.allow_obsolete_multiline_headers_in_responses(c.f);
+            }
+            2 => {
+                p.allow_multiple_spaces_in_request_line_delimiters(c.mreq);
+            }
+            3 => {
+                p.allow_multiple_spaces_in_response_status_delimiters(c.mresp);
+            }
+            4 => {
+                p.allow_space_before_first_header_name(c.s);
+            }
+            5 => {
+                p.ignore_invalid_headers_in_responses(c.iresp);
+            }
+            _ => {
+                p.ignore_invalid_headers_in_requests(c.ireq);
+            }
+        }
+    }
     p
 }
 
